@@ -4,8 +4,8 @@
    shown, and how the session ends.  Programs are input-free (the interpreter shares stdin with the program). *)
 From Coq Require Import List NArith Bool.
 Import ListNotations.
-From HV Require Import Model.Parse Model.Exec Model.Opt Model.Repl Proofs.OptSpec Proofs.AppSpec Proofs.AppAll Proofs.CoroSpec.
-From HV Require Proofs.CoroProofs.
+From HV Require Import Model.Parse Model.Exec Model.Opt Model.Repl Proofs.OptSpec Proofs.AppSpec Proofs.AppAll Proofs.CoroSpec Proofs.App2Spec.
+From HV Require Proofs.CoroProofs Proofs.App2Proofs.
 Open Scope N_scope.
 
 (* for every clear-free history — any cutting of the commands into lines, with blank and help lines in between —
@@ -46,6 +46,23 @@ Theorem C12_after_clear_is_fresh : forall fuel line rest log s, leqb (trim line)
   fst (repl true fuel (line :: rest) log s) = EvFlush [] [] :: fst (repl true fuel rest [] (state0 SUnopt (inp s))).
 Proof. exact CoroProofs.repl_after_clear. Qed.
 Print Assumptions C12_after_clear_is_fresh.
+
+(* whole sessions with any number of `clear` lines: the text shown is, segment by segment, that of whole-program runs from the
+   initial state; a segment that ends the session (program exit, diagnosed error) ends it with that run's status *)
+Theorem C12_clear_splits_session : forall fuel seg c rest evs e, forallb plain_line seg = true ->
+  leqb (trim c) KW_CLEAR = true -> repl_run true fuel (seg ++ c :: rest) = (evs, e) -> e <> RFuelOut ->
+  exists F k o x, beh (run_inc F [] (flat_map line_cmds seg) (state0 SUnopt [])) = (k, o, x) /\
+    ((k <> KDone /\ rkind e = k /\ shown_out evs = o /\ shown_err evs = x) \/
+     (k = KDone /\ e = snd (repl_run true fuel rest) /\
+      shown_out evs = o ++ shown_out (fst (repl_run true fuel rest)) /\
+      shown_err evs = x ++ shown_err (fst (repl_run true fuel rest)))).
+Proof. exact App2Proofs.repl_clear_split. Qed.
+Print Assumptions C12_clear_splits_session.
+Theorem C12_session_with_clears : forall fuel c segs evs e, Forall (fun seg => forallb plain_line seg = true) segs ->
+  leqb (trim c) KW_CLEAR = true -> repl_run true fuel (join_clear c segs) = (evs, e) -> e <> RFuelOut ->
+  session_beh segs (rkind e) (shown_out evs) (shown_err evs).
+Proof. exact App2Proofs.repl_session. Qed.
+Print Assumptions C12_session_with_clears.
 
 (* the pinned tree (before fix 254b24c) dropped a line's text when the line ended in an error *)
 Theorem C12_pinned_refuted : exists fuel lines, forallb plain_line lines = true /\
